@@ -201,7 +201,7 @@ func (p *Program) prov(v ssa.Value, path string, at ssa.Instruction, depth int) 
 	if v == nil {
 		return out
 	}
-	if depth > 60 {
+	if depth > 1500 {
 		out.add(Atom{Kind: "top", Name: "depth"})
 		return out
 	}
@@ -611,7 +611,7 @@ func (p *Program) callResult(out Prov, call *ssa.Call, idx int, path string, dep
 	}
 	callees := p.Callees(call)
 	if len(callees) > 0 {
-		if depth > provMaxDepth*4 {
+		if depth > 1200 {
 			out.add(Atom{Kind: "top", Name: "call-depth"})
 			return
 		}
